@@ -603,7 +603,9 @@ impl<S: WebSocket, T: TimestampProvider> Task<S, T> {
             buf: Bytes::new(),
             tx_msg_tx: self.tx_msg_tx.clone(), // cheap
             dropped_flows_tx: self.dropped_flows_tx.clone(), // cheap
-            rwnd_threshold: self.default_rwnd_threshold.min(peer_rwnd),
+            // The peer may send at most `self.rwnd` frames (the window we advertised) before
+            // it needs an `Acknowledge`, so a threshold above our own `rwnd` is never reached.
+            rwnd_threshold: self.default_rwnd_threshold.min(peer_rwnd).min(self.rwnd),
         };
         (stream, stream_data)
     }
